@@ -583,6 +583,83 @@ def r4(prog: Program, chk: Check) -> None:
             f"built-in example judged as expected", True, "")
 
 
+def r5(prog: Program, chk: Check) -> None:
+    chk.rule("R5", "the vectors that close the reduced legs (sum_north / sum_west handed to the "
+             "back ends) are vectors of ones in both the reduced and the full case: the dk = 0 "
+             "tensor already sends every basis index to exactly one class, so closing a class "
+             "leg with its multiplicity (bincount of the map) counts the degenerate indices "
+             "twice", floor=6)
+    n = 0
+    for pu in [u for m_ in ("tempo", "pt_tempo") for u in prog.units_in(m_)
+               if not isinstance(u.node, ast.Lambda)]:
+        calls = [c for c in walk_local(pu.node) if isinstance(c, ast.Call) and call_name(c) in (
+            "TempoBackend", "PtTempoBackend", "MeanFieldTempoBackend")]
+        if not calls:
+            continue
+        P = Roles(pu)
+        chk.saw(pu, P.du.cfg)
+
+        def ones(e, nid, depth=0) -> Optional[bool]:
+            """True: a vector (or list of vectors) of ones; False: something else; None: unknown"""
+            if isinstance(e, ast.Call) and (dotted(e.func) or "").split(".")[-1] in ("ones", "ones_like"):
+                return True
+            if isinstance(e, ast.Call) and isinstance(e.func, ast.Attribute) \
+                    and e.func.attr in ("astype", "copy") and depth < 6:
+                return ones(e.func.value, nid, depth + 1)        # ones(..).astype(float)
+            if isinstance(e, ast.Call) and (dotted(e.func) or "").split(".")[-1] in ("array", "asarray") \
+                    and depth < 6:
+                return ones(e.args[0], nid, depth + 1) if e.args else None
+            if isinstance(e, (ast.ListComp, ast.GeneratorExp)) and depth < 6:
+                return ones(e.elt, nid, depth + 1)
+            if isinstance(e, (ast.List, ast.Tuple)) and e.elts and depth < 6:
+                rs = [ones(x, nid, depth + 1) for x in e.elts]
+                return False if False in rs else (None if None in rs else True)
+            if isinstance(e, ast.Name) and depth < 6:
+                ds = [d for d in P.du.reaching(nid, e.id) if d.value is not None]
+                if not ds:
+                    return None
+                rs = []
+                for d in ds:
+                    if d.sel and d.sel[0][0] == "idx" and len(d.sel) == 1:
+                        picked = P._select(d.value, d.node, d.sel[0][1])
+                        if picked:
+                            rs += [ones(x, at, depth + 1) for (x, at) in picked]
+                        elif isinstance(d.value, (ast.ListComp, ast.GeneratorExp)):
+                            rs.append(ones(d.value.elt, d.node, depth + 1))
+                        else:
+                            rs.append(None)
+                    elif d.sel and d.sel[0][0] == "iter":
+                        rs.append(ones(d.value, d.node, depth + 1))
+                    elif d.sel:
+                        rs.append(None)
+                    else:
+                        rs.append(ones(d.value, d.node, depth + 1))
+                return False if False in rs else (None if None in rs else True)
+            if isinstance(e, ast.Call):
+                return False            # built by some other function (bincount, full, zeros, ...)
+            return None
+        for c in calls:
+            callee = prog.find_method(prog.resolve_class_name(pu.module, call_name(c)), "__init__")
+            params = callee.params[1:]
+            bound = {params[i]: a for i, a in enumerate(c.args) if i < len(params)}
+            bound.update({k.arg: k.value for k in c.keywords if k.arg})
+            nid = P.du.node_of(c)
+            for p_, a in bound.items():
+                if not (p_.startswith("sum_north") or p_.startswith("sum_west")):
+                    continue
+                n += 1
+                r = ones(a, nid)
+                chk.add("R5", pu, f"{call_name(c)}({p_} = {norm(a)[:40]})",
+                        True if r is True else (False if r is False else None),
+                        "vector(s) of ones on every path" if r is True else
+                        ("the closing vector is not a vector of ones on some path: classes are "
+                         "weighted, degenerate indices are counted more than once" if r is False
+                         else "origin of the closing vector not decided"), c)
+    if n < 6:
+        raise AnalysisError(f"R5: only {n} sum_north / sum_west arguments found at the back-end "
+                            f"constructors (6 confirmed by hand)")
+
+
 def run(prog: Program, chk: Check) -> None:
     chk.explanation = (
         "Decides role consistency of the two degeneracy maps: provenance tags NORTH (classes of "
@@ -600,3 +677,4 @@ def run(prog: Program, chk: Check) -> None:
     chk.call(r2, prog, chk)
     chk.call(r3, prog, chk)
     chk.call(r4, prog, chk)
+    chk.call(r5, prog, chk)
